@@ -39,7 +39,13 @@ import (
 )
 
 func init() {
-	Registry["C05"] = Prop{Gen: c05Gen, Replay: func(r *Run, ops []map[string]interface{}) {
+	Registry["C05"] = Prop{Gen: func(r *Run) {
+		if r.Mode == "access" { // the repository's own enforce / validate (c05_access.go)
+			c05AccessGen(r)
+		} else {
+			c05Gen(r)
+		}
+	}, Replay: func(r *Run, ops []map[string]interface{}) {
 		for _, op := range ops {
 			r.Emit(op, c05Exec(op))
 		}
@@ -374,6 +380,7 @@ type c05Env struct {
 	job                  *gripql.JobDirectClient
 	edit                 *gripql.EditDirectClient
 	conf                 *gripql.ConfigureDirectClient
+	close                func()
 }
 
 var c05Envs = map[string]*c05Env{}
@@ -398,6 +405,13 @@ func c05GetEnv(cfg string) *c05Env {
 	} else {
 		ac = accounts.NewConfigVerif(c05Auth{}, c05Access{})
 	}
+	e := c05NewEnv(ac)
+	c05Envs[cfg] = e
+	return e
+}
+
+// c05NewEnv builds the two transports around the interceptors of one accounts.Config.
+func c05NewEnv(ac *accounts.Config) *c05Env {
 	u, s := ac.UnaryInterceptor(), ac.StreamInterceptor()
 	gs := grpc.NewServer(
 		grpc.UnaryInterceptor(grpc_middleware.ChainUnaryServer(u, c05PassU)),
@@ -421,8 +435,8 @@ func c05GetEnv(cfg string) *c05Env {
 		job:   gripql.NewJobDirectClient(srv, gripql.DirectUnaryInterceptor(u), gripql.DirectStreamInterceptor(s)),
 		edit:  gripql.NewEditDirectClient(srv, gripql.DirectUnaryInterceptor(u), gripql.DirectStreamInterceptor(s)),
 		conf:  gripql.NewConfigureDirectClient(srv, gripql.DirectUnaryInterceptor(u), gripql.DirectStreamInterceptor(s)),
+		close: func() { conn.Close(); gs.Stop() },
 	}
-	c05Envs[cfg] = e
 	return e
 }
 
@@ -594,6 +608,9 @@ func c05Exec(op map[string]interface{}) (obs map[string]interface{}) {
 			obs = map[string]interface{}{"err": "panic", "handled": nil, "log": []interface{}{}, "why": fmt.Sprint(p)}
 		}
 	}()
+	if k, _ := op["op"].(string); k != "call" && k != "" {
+		return c05AccessExec(op) // ops of mode "access"
+	}
 	full, _ := op["m"].(string)
 	m, ok := c05MethodByFull(full)
 	if !ok {
